@@ -76,9 +76,17 @@ stmt_contract(K, match="shift: float = delta * shock_sign * shock_size", label="
               ensures=["hint(shock_size)", "1 <= shock_size and shock_size < self.perturbation_range",
                        "shock_sign == 1 or shock_sign == -1"], props=["C16"])
 
+# (instantiation seed for "at least one coordinate moved": the first coordinate drawn)
+stmt_contract(K, match="params_shocked: NDArray[np.int64] = self.random_generator.choice(search_space.dims, "
+                       "tuple(num_shocks), replace=False)",
+              label="at-least-one-coordinate-drawn", lemma=True,
+              ensures=["len(params_shocked) >= 1", "0 <= params_shocked[0] and params_shocked[0] < search_space.dims",
+                       "hint(params_shocked[0])"], props=["C16"])
+
 _ROW_DONE = ("forall(range(0, search_space.dims), lambda c: sampled_points[{q}, c] == parent({q}, c) or "
              "moved(sampled_points[{q}, c], parent({q}, c), step(c), lo(c), hi(c))) and "
-             "exists(range(0, search_space.dims), lambda c: moved(sampled_points[{q}, c], parent({q}, c), step(c), lo(c), hi(c)))")
+             "exists(range(0, search_space.dims), lambda c: hint(c) and "
+             "moved(sampled_points[{q}, c], parent({q}, c), step(c), lo(c), hi(c)))")
 loop_invariant(K, 1, over="sampled_points", var="r", props=["C16"],
                inv=["sampled_points.shape[0] == batch_size and sampled_points.shape[1] == search_space.dims",
                     # rows not yet visited are still their parents
@@ -93,7 +101,7 @@ loop_invariant(K, 2, over="params_shocked", var="t", props=["C16"],
                     "sampled_points[q, c] == entry(sampled_points)[q, c])))",
                     # this row: the coordinates drawn so far are moved, the others still the parent's
                     "forall(range(0, search_space.dims), lambda c: "
-                    "implies(exists(range(0, t), lambda u: params_shocked[u] == c), "
+                    "implies(hint(c) and exists(range(0, t), lambda u: params_shocked[u] == c), "
                     "moved(sampled_points[r, c], parent(r, c), step(c), lo(c), hi(c))) and "
                     "implies(not exists(range(0, t), lambda u: params_shocked[u] == c), sampled_points[r, c] == parent(r, c)))"])
 
